@@ -1,13 +1,64 @@
 import PsyVerif.Model.Proto
 import PsyVerif.Model.Decls
 import PsyVerif.Model.DeclsIO
+import PsyVerif.Model.ExprIO
 open Proto Decls
+
+/-! ### expressions inside statements / initial values (model: `C02.parse`, `C02.render .narrow`) -/
+namespace XText
+open C02
+
+def optoks : List OpTok :=
+  [.plus, .minus, .star, .slash, .pow, .eq, .ne, .lt, .le, .gt, .ge, .not, .and, .or, .eqv, .neqv]
+def opStr : OpTok → String
+  | .plus => "+" | .minus => "-" | .star => "*" | .slash => "/" | .pow => "**" | .eq => "==" | .ne => "/="
+  | .lt => "<" | .le => "<=" | .gt => ">" | .ge => ">=" | .not => ".not." | .and => ".and." | .or => ".or."
+  | .eqv => ".eqv." | .neqv => ".neqv." | .bad => "?"
+
+/-- `lp` `rp` `(n k)` name v<k>  `(o k)` operator  `(i d)` integer literal  `(t b)` logical literal -/
+def rdTok : Sexp → Option Tok
+  | .atom "lp" => some .lp
+  | .atom "rp" => some .rp
+  | .list [.atom "n", k] => k.nat?.map .name
+  | .list [.atom "o", k] => do pure (.op (← optoks[(← k.nat?)]?))
+  | .list [.atom "i", d] => d.nat?.map fun d => .lit (.num d false .none .none)
+  | .list [.atom "t", b] => b.nat?.map fun b => .lit (.bool (b != 0) .none)
+  | _ => none
+
+def shTok : Tok → String
+  | .lp => "(" | .rp => ")" | .comma => "," | .pct => "%"
+  | .op o => opStr o
+  | .name n => s!"v{n}" | .fn n => s!"f{n}" | .kw n => s!"k{n}="
+  | .lit (.num d _ _ _) => toString d
+  | .lit (.bool b _) => if b then ".true." else ".false."
+  | .lit (.char _ _ _) => "'c'"
+
+def shToks (ts : List Tok) : String := String.join (ts.map shTok)
+
+/-- `(exprtext (<tok> ...))` → `none` (source not a sentence of the grammar) or `w1|w2` where
+`w1 = render (parse src)` and `w2 = render (parse w1)` (`unreadable` if `w1` does not parse), followed by
+`|1` / `|0`: the tree is in the class `C02.exposed` (sign kept bare in front of `*` `/`). -/
+def exprText (ts : List Tok) : String :=
+  match parse ts with
+  | none => "none"
+  | some e =>
+    let w1 := render .narrow .top e
+    let x := if exposed .top e then "|1" else "|0"
+    match parse w1 with
+    | none => shToks w1 ++ "|unreadable" ++ x
+    | some e2 => shToks w1 ++ "|" ++ shToks (render .narrow .top e2) ++ x
+
+end XText
 
 /-- `(write <unit>)` → items of the first write (fixed code);  `(writepinned <unit>)` likewise for
 the pinned access-statement order;  `(reread <unit>)` → symbol table (name, class) after reading
-the written text back;  `(roundtrip <unit>)` / `(roundtrippinned <unit>)` → `same` / `diff` / refusal. -/
+the written text back;  `(exprtext (<tok> ...))` see `XText.exprText`;  `(roundtrip <unit>)` / `(roundtrippinned <unit>)` → `same` / `diff` / refusal. -/
 def handle (s : Sexp) : String :=
   match s with
+  | .list [.atom "exprtext", .list toks] =>
+    match toks.mapM XText.rdTok with
+    | none => "bad-tokens"
+    | some ts => XText.exprText ts
   | .list [.atom cmd, u] =>
     match parseUnit u with
     | none => "bad-unit"
